@@ -453,11 +453,14 @@ var c10IdentAlphabet = []byte("abAB12_")
 // regexps, so the text is concrete per path): toUpperUnderscore equals the reference, and the
 // base name of {$id}, {$x.id} is that.
 func H_baseName(n int) {
-	b := make([]byte, n)
-	for i := range b {
-		b[i] = c10IdentAlphabet[verifChoose(len(c10IdentAlphabet))]
+	// any identifier characters (the five regular expressions of toUpperUnderscore run on the
+	// symbolic bytes through the engine's regexp matcher)
+	id := verifString(n)
+	for i := 0; i < len(id); i++ {
+		c := id[i]
+		verifAssume(c == '_' || c >= '0' && c <= '9' || c >= 'a' && c <= 'z' || c >= 'A' && c <= 'Z')
 	}
-	id := string(b)
+	verifAssume(!(id[0] >= '0' && id[0] <= '9'))
 	verifObserve("id", id)
 	want := refUpperUnderscore(id)
 	verifAssert(toUpperUnderscore(id) == want, "base placeholder name differs from the official conversion for "+id)
